@@ -7,6 +7,8 @@ import (
 	"fmt"
 	"io"
 	"math/rand"
+	"os"
+	"path/filepath"
 	"sort"
 	"time"
 
@@ -112,7 +114,11 @@ func buildDeb(vec J) (builtDeb, error) {
 				f := M(fj)
 				switch f["kind"].(string) {
 				case "control":
-					files = append(files, tarFile{Name: f["name"].(string), Content: renderControl(L(s["fields"]))})
+					content := renderControl(L(s["fields"]))
+					if raw, ok := s["control_raw"]; ok {
+						content = []byte(S(raw)) // hostile control-file text
+					}
+					files = append(files, tarFile{Name: f["name"].(string), Content: content})
 				case "dir":
 					files = append(files, tarFile{Name: f["name"].(string), Dir: true})
 				default:
@@ -303,6 +309,16 @@ func overlappingLoads(b []byte) (obs J) {
 
 // execDebOps: several Deb values alive in one process: Load / read Data / CheckDebsig / Close (also twice) in the
 // order the vector gives.  One observation per operation.
+// putFile replaces the file at path the way an archive tool does: a new file renamed over the old name, so that a
+// descriptor still open on the old file keeps seeing the old bytes.
+func putFile(path string, b []byte) error {
+	tmp := path + ".new"
+	if err := os.WriteFile(tmp, b, 0644); err != nil {
+		return err
+	}
+	return os.Rename(tmp, path)
+}
+
 func execDebOps(vec J, out *Writer) {
 	pkgs := [][]byte{}
 	for _, p := range L(vec["pkgs"]) {
@@ -314,6 +330,13 @@ func execDebOps(vec J, out *Writer) {
 		pkgs = append(pkgs, b.Bytes)
 	}
 	handles := map[int]*deb.Deb{}
+	closers := map[int]deb.Closer{}
+	dir, derr := os.MkdirTemp("", "verif-debops-")
+	if derr != nil {
+		die("mkdtemp: %v", derr)
+	}
+	defer os.RemoveAll(dir)
+	path := filepath.Join(dir, "pkg.deb") // "loadfile" / "replace" work on this one path
 	steps := []interface{}{}
 	for _, oj := range L(vec["ops"]) {
 		o := M(oj)
@@ -326,6 +349,27 @@ func execDebOps(vec J, out *Writer) {
 				}
 			}()
 			switch o["op"].(string) {
+			case "loadfile":
+				if putFile(path, pkgs[I(o["p"])-1]) != nil {
+					return
+				}
+				dd, c, err := deb.LoadFile(path)
+				if err != nil {
+					return
+				}
+				handles[h], closers[h] = dd, c
+				obs["ok"] = true
+				obs["package"] = B(dd.Control.Package)
+			case "closer":
+				if c := closers[h]; c != nil {
+					obs["ok"] = c() == nil
+				}
+			case "replace":
+				// another package is put at the path an earlier handle was loaded from
+				obs["ok"] = putFile(path, pkgs[I(o["p"])-1]) == nil
+			case "dict":
+				deb.SetXZMaxDict(uint32(I(o["p"]))) // p = the limit in bytes (0 = the decoder's default)
+				obs["ok"] = true
 			case "load":
 				dd, err := deb.Load(bytes.NewReader(pkgs[I(o["p"])-1]), "/tmp/x.deb")
 				if err != nil {
@@ -371,6 +415,7 @@ func execDebOps(vec J, out *Writer) {
 		}()
 		steps = append(steps, obs)
 	}
+	deb.SetXZMaxDict(0)
 	out.Put(J{"ev": "deb_ops", "in": vec, "built": true, "steps": steps})
 }
 
@@ -449,6 +494,15 @@ func execDeb(vec J, out *Writer) {
 			c := cols[vec["col"].(string)]
 			text := fmt.Sprintf("%-*s", c[1]-c[0], S(vec["text"]))
 			copy(b[hdr+c[0]:hdr+c[1]], text[:c[1]-c[0]])
+		case "control_text":
+			// the ./control file inside control.tar replaced by a hostile text
+			ms := stdMembers(vec["ctl"].(string), vec["data"].(string), "rawpkg")
+			M(ms[1])["control_raw"] = vec["text"]
+			nb, err := buildDeb(J{"members": ms})
+			if err != nil {
+				die("debraw control_text: %v", err)
+			}
+			b = nb.Bytes
 		case "binary_text":
 			// the debian-binary member replaced by a hostile text
 			ms := append([]arMember{}, base.Members...)
@@ -548,6 +602,11 @@ func genDebRaw(r *rand.Rand, tier string, out *Writer) {
 		out.Put(J{"k": "debraw", "ctl": comps[0], "data": comps[1], "op": "none"})
 		for _, nm := range []string{"control.sig", "data.sig", "control.tar", "data.tar.gz", "_gpgorigin", "control.", "data.x.tar"} {
 			out.Put(J{"k": "debraw", "ctl": comps[0], "data": comps[1], "op": "extra_member", "name": nm})
+		}
+		for _, t := range []string{"", "\n", "Package\n", ": x\n", "-----BEGIN PGP SIGNED MESSAGE-----\n", "-----BEGIN PGP SIGNED MESSAGE-----\nHash: SHA256\n\nPackage: a\nVersion: 1\n",
+			"-----BEGIN PGP MESSAGE-----\n\nAAAA\n-----END PGP MESSAGE-----\n", "-----BEGIN PGP ", "Package: a\nInstalled-Size: x\n", "Package: a\nVersion: :\n", "Package: a\nDepends: (\n",
+			"\x00\x01\x02", "Package: a\n\nPackage: b\n", " leading continuation\n"} {
+			out.Put(J{"k": "debraw", "ctl": comps[0], "data": comps[1], "op": "control_text", "text": B(t)})
 		}
 		for _, t := range []string{"", "\n", "\n\n", "\n2.0\n", "2", "2.", "2\n", "2.\n", ".\n", "2.0", "\x00\n", " 2.0\n", "20.0\n", "2.0\r\n"} {
 			out.Put(J{"k": "debraw", "ctl": comps[0], "data": comps[1], "op": "binary_text", "text": B(t)})
